@@ -99,6 +99,8 @@ pub struct HostCfg {
     pub hostname: Option<String>,
     pub uid: Option<u32>,
     pub ncpu: Option<u32>,
+    /// what /proc/self/exe says: the program hosting the expander
+    pub exe: Option<String>,
     /// file-system view during expansions: (kind 'R' redirect | 'N' absent, key, content for R)
     pub fs_map: Vec<(char, String, String)>,
     /// simulated disk (where an expansion's writes land): false = cold, wiped before this host
@@ -109,7 +111,7 @@ pub struct HostCfg {
 
 impl HostCfg {
     pub fn reference() -> HostCfg {
-        HostCfg { entropy_seed: 0, entropy_skip: 0, env: vec![], clock_epoch_ns: 0, clock_step_ns: 1, pid: 1000, cwd: "/".into(), argv: vec![], hostname: None, uid: None, ncpu: None, fs_map: vec![], warm_disk: false, events: vec![] }
+        HostCfg { entropy_seed: 0, entropy_skip: 0, env: vec![], clock_epoch_ns: 0, clock_step_ns: 1, pid: 1000, cwd: "/".into(), argv: vec![], hostname: None, uid: None, ncpu: None, exe: None, fs_map: vec![], warm_disk: false, events: vec![] }
     }
 
     /// which fault dimensions of `self` differ from the reference configuration
@@ -133,7 +135,7 @@ impl HostCfg {
         if self.argv != reference.argv {
             m |= F_ARGV
         }
-        if self.hostname != reference.hostname || self.uid != reference.uid || self.ncpu != reference.ncpu {
+        if self.hostname != reference.hostname || self.uid != reference.uid || self.ncpu != reference.ncpu || self.exe != reference.exe {
             m |= F_IDENT
         }
         if self.fs_map != reference.fs_map {
@@ -312,6 +314,9 @@ pub fn run_host(env: &Env, backend: Backend, build: Build, texts: &[(u32, String
     }
     if let Some(n) = cfg.ncpu {
         cmd.env("SIM_NCPU", n.to_string());
+    }
+    if let Some(e) = &cfg.exe {
+        cmd.env("SIM_EXE_NAME", e);
     }
     // private scratch area of the calling worker: redirect targets (rewritten for every host)
     // and the simulated disk
@@ -782,6 +787,21 @@ pub fn plan_world(ws: u64, corpus: &Corpus, o: &PlanOpts) -> World {
             cfg.hostname = Some(format!("build-{}", rng.next_u64() % 100));
             cfg.uid = Some(*rng.pick(&[0u32, 1000, 1001, 65534]));
             cfg.ncpu = Some(*rng.pick(&[1u32, 2, 3, 8, 64]));
+            cfg.exe = Some(
+                rng.pick(&[
+                    "/home/dev/.rustup/toolchains/stable-x86_64-unknown-linux-gnu/bin/rustc",
+                    "/home/dev/.cargo/bin/rust-analyzer",
+                    "/usr/libexec/rust-analyzer-proc-macro-srv",
+                    "/home/dev/.rustup/toolchains/nightly-x86_64-unknown-linux-gnu/libexec/rust-analyzer-proc-macro-srv",
+                    "/home/dev/.rustup/toolchains/stable-x86_64-unknown-linux-gnu/bin/clippy-driver",
+                    "/home/dev/.rustup/toolchains/stable-x86_64-unknown-linux-gnu/bin/rustdoc",
+                    "/home/dev/.cargo/bin/cargo-expand",
+                    "/opt/ide/proc-macro-srv",
+                    "/home/dev/.rustup/toolchains/nightly-x86_64-unknown-linux-gnu/bin/miri",
+                    "/tmp/x/target/debug/deps/trybuild001-0123456789abcdef",
+                ])
+                .to_string(),
+            );
         }
         if f & F_FS != 0 {
             cfg.fs_map = plan_fs(&mut rng, &o.fs_feedback);
